@@ -512,6 +512,70 @@ package app
 //@   ensures removed: !(proc.procConf.ReplicaName in p.runningProcesses)
 //@   ensures remembered: proc.procConf.ReplicaName in p.doneProcesses && p.doneProcesses[proc.procConf.ReplicaName] == proc
 
+// ---------- C08: manual start / stop / restart ----------
+// the options handed to NewProcess are applied by it (trusted: option closures are opaque function values)
+//@ ghost lastProcConfOpt() *types.ProcessConfig
+//@ func withProcConf
+//@   sets lastProcConfOpt() := procConf
+//@   ensures result != nil
+//@ func NewProcess
+//@   flag trusted
+//@   ensures result != nil && fresh(result) && procWF(result) && bufWF(result.logBuffer) && unlocked(result)
+//@   ensures conf: result.procConf == lastProcConfOpt()
+//@   ensures not-done: !result.done
+//@   assigns ctxCount()
+
+//@ func (p *Process) getState
+//@   requires !held(p.stateMtx) && !held(p.timeMutex)
+//@   ensures result == p.procState
+//@   assigns p.procState.SystemTime, p.procState.Age, p.procState.Name, p.procState.Mem, p.procState.CPU, p.procState.IsRunning, p.procState.IsElevated, p.procState.PasswordProvided
+//@ func (p *ProjectRunner) GetProcessState
+//@   requires noLocks() && runnerWF(p)
+//@   ensures found: name in p.runningProcesses ==> result0 == p.runningProcesses[name].procState && result1 == nil
+//@   ensures stored: !(name in p.runningProcesses) && name in p.processStates ==> result0 == p.processStates[name] && result1 == nil
+//@   ensures unknown: !(name in p.runningProcesses) && !(name in p.processStates) ==> result0 == nil && result1 != nil
+//@   ensures nolocks: noLocks()
+//@   assigns types.ProcessState.SystemTime[*], types.ProcessState.Age[*], types.ProcessState.Name[*], types.ProcessState.Mem[*], types.ProcessState.CPU[*], types.ProcessState.IsRunning[*], types.ProcessState.IsElevated[*], types.ProcessState.PasswordProvided[*]
+//@ func (p *ProjectRunner) getProcessLog
+//@   ensures found: name in p.processLogs ==> result0 == p.processLogs[name] && result1 == nil
+//@   ensures unknown: !(name in p.processLogs) ==> result0 == nil && result1 != nil
+//@   assigns nothing
+// A new instance may only be created for a name under which no live instance is registered.
+//@ func (p *ProjectRunner) runProcess
+//@   requires noLocks() && runnerWF(p) && config != nil
+//@   requires no-live-instance: !(config.ReplicaName in p.runningProcesses) || p.runningProcesses[config.ReplicaName].done
+//@   ensures registered: config.ReplicaName in p.runningProcesses && fresh(p.runningProcesses[config.ReplicaName]) && p.runningProcesses[config.ReplicaName].procConf == config
+//@   ensures one-instance: spawned(fntag("(*app.ProjectRunner).runProcess$1")) == old(spawned(fntag("(*app.ProjectRunner).runProcess$1"))) + 1
+//@   ensures others-kept: forall k string :: k != config.ReplicaName ==> (k in p.runningProcesses <==> old(k in p.runningProcesses)) && p.runningProcesses[k] == old(p.runningProcesses[k])
+//@   ensures nolocks: noLocks() && runnerWF(p)
+
+// the project's process map is keyed by replica name (established by the loader, kept by scaling)
+//@ define projKeyed(p *ProjectRunner) bool = forall n string :: n in p.project.Processes ==> p.project.Processes[n].ReplicaName == n
+// start: refused without side effects while an instance is registered or when the name is unknown; otherwise
+// exactly one new instance
+//@ func (p *ProjectRunner) StartProcess
+//@   requires noLocks() && runnerWF(p) && projKeyed(p)
+//@   ensures refused-running: old(name in p.runningProcesses) ==> result != nil && spawned(fntag("(*app.ProjectRunner).runProcess$1")) == old(spawned(fntag("(*app.ProjectRunner).runProcess$1"))) && p.runningProcesses[name] == old(p.runningProcesses[name])
+//@   ensures refused-unknown: !old(name in p.runningProcesses) && !(name in p.project.Processes) ==> result != nil && spawned(fntag("(*app.ProjectRunner).runProcess$1")) == old(spawned(fntag("(*app.ProjectRunner).runProcess$1"))) && !(name in p.runningProcesses)
+//@   ensures started: !old(name in p.runningProcesses) && name in p.project.Processes ==> result == nil && spawned(fntag("(*app.ProjectRunner).runProcess$1")) == old(spawned(fntag("(*app.ProjectRunner).runProcess$1"))) + 1
+
+// stop: unknown or not registered => error, nothing is signalled and no flag changes; otherwise the instance is
+// flagged not-to-be-restarted and its stop is requested
+//@ func (p *ProjectRunner) StopProcess
+//@   requires noLocks() && runnerWF(p)
+//@   ensures refused: !old(name in p.runningProcesses) ==> result != nil && stops() == old(stops()) && runs() == old(runs()) && kept("abool")
+//@   ensures stopped: old(name in p.runningProcesses) ==> abool(old(p.runningProcesses[name]).isStopped) && cancelled(old(p.runningProcesses[name]).procRunCtx)
+//@   ensures nolocks: noLocks()
+
+// restart: the registered instance (if any) is flagged, stopped and has ENDED before the new one is created;
+// a successful restart creates exactly one new instance; a failed one creates none
+//@ func (p *ProjectRunner) RestartProcess
+//@   requires noLocks() && runnerWF(p) && projKeyed(p)
+//@   ensures one-new: result == nil ==> spawned(fntag("(*app.ProjectRunner).runProcess$1")) == old(spawned(fntag("(*app.ProjectRunner).runProcess$1"))) + 1
+//@   ensures none-on-error: result != nil ==> spawned(fntag("(*app.ProjectRunner).runProcess$1")) == old(spawned(fntag("(*app.ProjectRunner).runProcess$1")))
+//@   ensures prev-stopped: old(name in p.runningProcesses) ==> abool(old(p.runningProcesses[name]).isStopped) && cancelled(old(p.runningProcesses[name]).procRunCtx)
+//@   ensures prev-exited: result == nil && old(name in p.runningProcesses) ==> old(p.runningProcesses[name]).done
+
 // ---------- C10: probe outcomes ----------
 //@ func (p *Process) onReadinessCheckEnd
 //@   requires procWF(p) && unlocked(p) && bufWF(p.logBuffer)
